@@ -165,6 +165,9 @@ def run(prog, chk):
             ok, why = False, 'called outside a base-first walk'
             if gfn.kind == 'lambda' and gfn.parent is not None:
                 ok, why = _post_order_closure(prog, gfn.parent, gfn, call, 'validated')
+            elif gfn.kind in ('method', 'function') and any(n_.get('k') in ('call', 'mcall') and n_.get('callee') == gfn.name for n_ in SX.walk(gfn.body, into_lambdas=False)):
+                # the base-first walk is a self-recursive function instead of a local closure
+                ok, why = _post_order_closure(prog, None, gfn, call, 'validated', walk_fn=gfn)
             chk.ob('R10.2', gfn, call.get('ln', gfn.ln), ok,
                    '%s derives %s of a class from the same datum of its base, so it must run on the base first: %s' % (V.short, acc, why),
                    key='inherit:%s' % V.short)
@@ -358,19 +361,31 @@ def _post_order_vector(prog, f, ref):
     return _post_order_closure(prog, f, lf, push, 'pushed')
 
 
-def _post_order_closure(prog, f, lf, target, verb):
-    """closure lf (bound to a local of f) recurses into the base of its argument before it reaches `target`, skips a class only
-    when it is null or already done, and is applied to every class."""
+def _post_order_closure(prog, f, lf, target, verb, walk_fn=None):
+    """closure lf (bound to a local of f) — or the self-recursive function walk_fn — recurses into the base of its argument before it
+    reaches `target`, skips a class only when it is null or already done, and is applied to every class."""
     from ..ktry import parent_map
-    pm = parent_map(f.body)
-    par = pm.get(id(lf.node))
-    while par is not None and par.get('k') not in ('var',):
-        par = pm.get(id(par))
-    if par is None:
-        return False, 'walk closure is not bound to a local'
-    selfid = par['id']
-    g = prog.cfg(lf)
-    selfcalls = [c for c in g.calls(lambda e: e['k'] == 'opcall' and e['op'] == '()' and e['args'] and SX.is_node(e['args'][0]) and e['args'][0].get('id') == selfid)]
+    if walk_fn is None:
+        pm = parent_map(f.body)
+        par = pm.get(id(lf.node))
+        while par is not None and par.get('k') not in ('var',):
+            par = pm.get(id(par))
+        if par is None:
+            return False, 'walk closure is not bound to a local'
+        selfid = par['id']
+        g = prog.cfg(lf)
+        selfcalls = [c for c in g.calls(lambda e: e['k'] == 'opcall' and e['op'] == '()' and e['args'] and SX.is_node(e['args'][0]) and e['args'][0].get('id') == selfid)]
+        hosts = [f]
+
+        def applies(n):
+            return n['k'] == 'opcall' and n['op'] == '()' and n['args'] and SX.is_node(n['args'][0]) and n['args'][0].get('id') == selfid
+    else:
+        g = prog.cfg(walk_fn)
+        selfcalls = [c for c in g.calls(lambda e: e['k'] in ('call', 'mcall') and e.get('callee') == walk_fn.name)]
+        hosts = [h for h, _ in prog.callers(walk_fn) if h is not walk_fn]
+
+        def applies(n):
+            return n['k'] in ('call', 'mcall') and n.get('callee') == walk_fn.name
     pnode = [c for c in g.nodes if c.e is target]
     if not selfcalls or not pnode:
         return False, 'walk closure does not recurse'
@@ -395,13 +410,15 @@ def _post_order_closure(prog, f, lf, target, verb):
             if not _null_or_done_test(cn.e, pids):
                 return False, 'the walk can stop at `%s` without walking the base link (a class reached only through such a node is laid out too late)' % SX.show(cn.e)[:60]
     applied = False
-    for lp in SX.walk(f.body, into_lambdas=False):
-        if lp['k'] == 'forrange' and _full_loose(lp) and (_program_collection(lp['range']) == 'classes' or 'unordered_map<std::string' in lp.get('rt', '')):
-            if any(n['k'] == 'opcall' and n['op'] == '()' and n['args'] and SX.is_node(n['args'][0]) and n['args'][0].get('id') == selfid
-                   for n in SX.walk(lp['body'], into_lambdas=False)):
-                applied = True
+    for hf in hosts:
+        for lp in SX.walk(hf.body, into_lambdas=False):
+            if lp['k'] == 'forrange' and _full_loose(lp) and (_program_collection(lp['range']) == 'classes' or 'unordered_map<std::string' in lp.get('rt', '')):
+                if any(applies(n) for n in SX.walk(lp['body'], into_lambdas=False)):
+                    applied = True
     if not applied:
         return False, 'the walk is not applied to every class'
+    if walk_fn is not None:
+        return True, '%s by a post-order walk over base links applied to every class' % verb
     # the name → declaration table the walk resolves base names with holds *every* class declaration (generic templates too: a
     # class deriving from Wrapped<int> reaches the template's own base only through the template's entry)
     tables = {}
